@@ -1,14 +1,15 @@
 """C15 Centroiders locate, shift, scale and batch consistently.
 
-E1: every single-bright-pixel image of every shape 2..7 x 2..7; EVERY image over a small grey
+E1: every single-bright-pixel image of every shape 2..7 x 2..7 and 1 x k / k x 1; EVERY image over a small grey
 alphabet on 2x2 / 2x3 / 3x3 / 3x4 (scaled by every factor, embedded at every offset of a larger
 frame, with every threshold); every ordered tuple (depth 1..3) of a 12-image alphabet as a stack;
 every displacement of every small pattern for the correlation centroid (frames 3..8, rectangular,
 paddings 1..4); all 2x2 images for the quad cell.  Oracle: exact rational centre of gravity
 (mc/refmodels/cog.py) for the unthresholded value, and the relations of the statement (scale,
 shift, stack == frames, displacement from the array centre, mirror antisymmetry) evaluated on the
-library's own outputs.  Every array handed to aotools is a fresh copy (several centroiders modify
-their arguments; that is C20's business).
+library's own outputs.  Every array handed to aotools is a fresh copy (whether a centroider may modify
+its argument is C20's business, not demanded here).  An image without flux has no centroid: such
+images (and frames, and quad cells) are left out of every relation.
 """
 import itertools
 import warnings
@@ -23,13 +24,15 @@ LEVEL = "exploration"
 TECHNIQUE = ("bounded exhaustive enumeration of images (all images over a grey alphabet on small shapes, all "
              "positions, all offsets, all thresholds, all ordered stacks up to depth 3, all displacements and "
              "paddings) against an exact rational centre of gravity and the relations of the statement")
-RULE = ("cases = single-pixel shapes (2..7)^2; chunks of the complete image enumeration per (shape, alphabet); "
+RULE = ("cases = single-pixel shapes (2..7)^2 and 1 x 1..7, 2..7 x 1; chunks of the complete image enumeration per (shape, alphabet); "
         "(centroider, threshold, depth) for stacks; (ny, nx, padding) for the correlation centroid; the 2x2 "
-        "alphabet for the quad cell. Images without flux (centre of gravity undefined) are skipped. A case is "
+        "alphabet for the quad cell. Images, frames and quad cells without flux (centre of gravity undefined) are "
+        "skipped. A case is "
         "non-trivial when it contains an image with at least two distinct non-zero pixels or a non-zero threshold")
 ASSUMPTIONS = [
-    "image values come from small alphabets ({0,1,3}, {0,1,2,3}, {0,1}) times the scales {1,2,1/2,3}; shapes up "
-    "to 3x4 (7x7 for single pixels, 8x8 frames for the correlation centroid)",
+    "image values come from small alphabets ({0,1,3}, {0,1,2,3}, {0,1}) times the scales {1,2,1/2,3} (2x2 family "
+    "also 1e-6, 1e-3, 1/3, 1e6; correlation images 3 and 1e-6; single pixels of value 1, 3, 0.7, 1e-7, 1e7); shapes up to 3x4 (7x7 and 1xk / kx1 for single pixels, 8x8 "
+    "frames for the correlation centroid)",
     "with a non-zero threshold only the RELATIONS of the statement are demanded (the statement does not say "
     "whether the threshold is subtracted); the absolute value is compared with the exact centre of gravity for "
     "threshold 0 only",
@@ -37,22 +40,42 @@ ASSUMPTIONS = [
     "correlation_centroid; quadCell (an un-normalised difference signal, treated separately by the statement) "
     "is only required to change sign under mirroring and to batch consistently",
     "'array centre' along an axis of n pixels, in pixel-index coordinates: odd n -> the central pixel (n-1)/2 "
-    "(unambiguous); even n -> either n/2 (FFT centre sample) or (n-1)/2 (geometric middle) is accepted",
+    "(unambiguous); even n -> either n/2 (FFT centre sample) or (n-1)/2 (geometric middle) is accepted, but it "
+    "must be the same reading for one n at every padding, threshold, pattern and on both axes",
+    "an image 'displaced by a real-valued s' is the linear-interpolation shift along one axis: the mix "
+    "(1-a) I(s0) + a I(s1) of two lattice displacements one pixel apart, s = (1-a) s0 + a s1 (threshold 0 only)",
+    "a uniform floor under image and/or reference (the content sits on a constant background, at least one pixel "
+    "of the frame at the floor) is part of 'all non-negative images' for the correlation centroid",
+    "min_threshold (an absolute floor of the centre-of-gravity threshold) is part of 'with thresholds' for "
+    "stack == frames and shift equivariance, not for scale invariance; it is only passed with a non-zero threshold",
+    "same_function_all_paths compares the VALUES returned through the package-level names and through "
+    "aotools.image_processing.centroiders (object identity is not demanded)",
+    "brightest-pixel fractions are (k + 1/4) / n_pixels: k pixels under rounding to nearest and under truncation",
     "correlation displacements are restricted to those where neither the content nor the support of the "
     "correlation reaches the frame border (no circular wrap-around)",
-    "stacks are 3-D (frames, y, x); tolerances 1e-12 (direct sums) and 1e-9 (FFT correlation) absolute, in pixels",
+    "stacks are 3-D (frames, y, x) (2 and 3 leading axes in the 'large' and quad-cell cases); tolerances 1e-12 "
+    "(direct sums) and 1e-9 (FFT correlation) absolute, in pixels; float32 images: 8 * eps32 * frame size",
 ]
 ENGINES = ["E1-product-enumeration"]
-LEVEL_TEXT = ("All single-pixel images of all shapes 2..7 x 2..7, all images over {0,1,2,3} on 2x2, {0,1,3} on "
+LEVEL_TEXT = ("All single-pixel images of all shapes 2..7 x 2..7 (and 1 x k, k x 1), all images over {0,1,2,3} on 2x2, {0,1,3} on "
               "2x3 (and 3x3 in the thorough tier), {0,1} on 3x3 (3x4) are enumerated with every scale, offset and "
               "threshold of the alphabet, through the 2-D and the N-D code path; every ordered stack of depth "
               "1..3 over a 12-image alphabet; every admissible displacement of every pattern on every frame "
-              "shape and padding for the correlation centroid.")
-LEVEL_NOTE = ("Trusted: Python Fractions. Not covered: grey values outside the alphabets, larger images, 4-D "
-              "stacks, min_threshold, correlation with wrap-around, real-valued (non-lattice) displacements.")
+              "shape and padding for the correlation centroid, on zero background and on uniform floors, and "
+              "linear mixes (1/4, 1/2, 0.7) of neighbouring displacements; min_threshold below / between / above "
+              "threshold * max of the stack alphabet; single rows and columns.")
+LEVEL_NOTE = ("Trusted: Python Fractions. Not covered: grey values outside the alphabets, larger images (beyond the "
+              "257 x 65 spot cases), min_threshold with threshold 0, correlation with wrap-around, real-valued "
+              "displacements other than linear mixes of two neighbouring lattice displacements. Purity of the calls "
+              "(arguments left unchanged, read-only inputs accepted) is not claimed here (C20).")
 
 THR = [0.0, 0.1, 0.3, 0.5, 0.9]
 SCALES = [2.0, 0.5, 3.0]
+SCALES_WIDE = [1e-6, 1e-3, 1.0 / 3.0, 1e6]       # 2x2 family only: absolute intensity floors / ceilings
+CORR_SCALES = [3.0, 1e-6]
+MIN_THR = [0.5, 2.0, 7.0]
+FLOORS = [(0.5, 0.5), (2.0, 0.5), (0.0, 2.0)]    # (floor under the image, floor under the reference)
+EPS32 = float(numpy.finfo(numpy.float32).eps)
 TOL = 1e-12
 TOL_FFT = 1e-9
 CHUNK = 256
@@ -74,8 +97,21 @@ def _pads(tier):
     return [1, 2, 3] if tier == "quick" else [1, 2, 3, 4]
 
 
+def _corr_thin():
+    return [(1, 5), (1, 6), (5, 1), (6, 1)]
+
+
+def _thin_shapes():
+    return [(1, k) for k in range(1, 8)] + [(k, 1) for k in range(2, 8)]
+
+
 def BOUNDS(tier):
-    return {"single_pixel_shapes": "2..7 x 2..7", "image_families": [[list(s), list(a)] for s, a in _families(tier)],
+    return {"single_pixel_shapes": "2..7 x 2..7, 1 x 1..7, 2..7 x 1", "single_pixel_values": [1.0, 3.0, 0.7, 1e-7, 1e7],
+            "scales_2x2_family": SCALES + SCALES_WIDE, "corr_image_scales": CORR_SCALES,
+            "min_threshold": MIN_THR, "corr_floors_image_reference": [list(f) for f in FLOORS],
+            "corr_thin_frames": _corr_thin(), "corr_subpixel_mix": [0.25, 0.5, 0.7],
+            "largest_frame": "257 x 65 (single pixels, dense spot shifted by (9, 17)); stacks of 257 frames",
+            "image_families": [[list(s), list(a)] for s, a in _families(tier)],
             "thresholds": THR, "scales": SCALES, "shift_frame": "(h+2, w+2), all 9 offsets",
             "stack_alphabet": 12, "stack_depths": [1, 2, 3],
             "stack_alphabet_2x2": "all 80 non-zero images over {0,1,3}, depth <= 2 (thorough)",
@@ -88,6 +124,9 @@ def cases(tier):
     for ny in range(2, 8):
         for nx in range(2, 8):
             yield Case("loc:%dx%d" % (ny, nx), {"kind": "loc", "shape": (ny, nx)}, True)
+    # line sensors / single rows and columns (an implementation that squeezes singleton axes breaks exactly these)
+    for (ny, nx) in _thin_shapes():
+        yield Case("loc:%dx%d" % (ny, nx), {"kind": "loc", "shape": (ny, nx)}, True)
     for shape, alpha in _families(tier):
         total = len(alpha) ** (shape[0] * shape[1])
         for lo in range(0, total, CHUNK):
@@ -106,8 +145,15 @@ def cases(tier):
         for fr in ("0.5", "2.5/9", "6.5/9", "0.3", "0.7", "3.5/9"):
             yield Case("stack:bp:frac=%s:depth=%d" % (fr, depth),
                        {"kind": "stack", "fn": "bp", "par": 0, "frac": fr, "depth": depth, "alpha": "A12"})
-    # non-square frames (2 x 5 and 4 x 3)
-    for alpha in ("R25", "R43"):
+    # min_threshold: an absolute floor of the threshold (below / between / above threshold * max of the frames)
+    for depth in (1, 2):
+        for t in (0.1, 0.3):
+            for m in MIN_THR:
+                yield Case("stack:cog:thr=%g:minthr=%g:depth=%d" % (t, m, depth),
+                           {"kind": "stack", "fn": "cog", "par": t, "minthr": m, "depth": depth, "alpha": "A12"}, True)
+    yield Case("minthr:shift", {"kind": "minthr"}, True)
+    # non-square frames (2 x 5 and 4 x 3), single rows and columns (1 x 5, 4 x 1)
+    for alpha in ("R25", "R43", "R15", "R41"):
         for depth in (1, 2):
             for t in (0, 0.3):
                 yield Case("stack:cog:thr=%g:depth=%d:frames=%s" % (t, depth, alpha),
@@ -139,7 +185,7 @@ def cases(tier):
     for (ny, nx) in ((13, 13), (17, 13), (19, 19), (23, 29), (26, 34), (31, 31), (41, 43)):
         for pad in (1, 2, 3):
             yield Case("corrsize:ny=%d:nx=%d:pad=%d" % (ny, nx, pad), {"kind": "corrsize", "ny": ny, "nx": nx, "pad": pad})
-    for (ny, nx) in _corr_shapes(tier):
+    for (ny, nx) in _corr_shapes(tier) + _corr_thin():
         for pad in _pads(tier):
             yield Case("corr:ny=%d:nx=%d:pad=%d" % (ny, nx, pad), {"kind": "corr", "ny": ny, "nx": nx, "pad": pad})
     yield Case("quadcell", {"kind": "quad"})
@@ -167,6 +213,8 @@ def evaluate(p):
             return _corr(p)
         if k == "corrsize":
             return _corrsize(p)
+        if k == "minthr":
+            return _minthr(p)
         return _quad()
 
 
@@ -192,10 +240,44 @@ def _err(a, b):
 
 
 def _frac_for(npx, n):
-    """a fraction f with int(round(f * n)) == npx"""
-    f = npx / float(n)
-    assert int(round(f * n)) == npx
+    """a fraction f <= 1 that selects npx of n pixels whether f * n is rounded to nearest or truncated
+    (npx / n itself can fall just below npx: (2 / 49.) * 49 = 1.9999999999999998)"""
+    if npx >= n:
+        return 1.0
+    f = (npx + 0.25) / float(n)
+    assert int(round(f * n)) == npx and int(f * n) == npx
     return f
+
+
+def _undefined(a):
+    return not numpy.any(numpy.isfinite(a))
+
+
+class _Filtered(object):
+    """Out proxy for the helpers of mc/variants: sub-clauses that demand more than C15 states (the call leaves its
+    argument unchanged, a read-only array is accepted) are counted as `<..>_not_claimed`, never as violations"""
+
+    def __init__(self, out):
+        self._o = out
+
+    def check(self, clause, ok, sub=None, measure=None, tol=None, detail=None, n=1):
+        if clause.endswith("_argument_unchanged"):
+            if not ok:
+                self._o.stat("argument_unchanged_not_claimed", 1)
+            return True
+        if not ok and str(sub).endswith(":read_only") and isinstance(detail, str) and not detail.startswith("result shape"):
+            self._o.stat("read_only_input_not_claimed", 1)       # the call raised on a read-only array
+            return True
+        return self._o.check(clause, ok, sub=sub, measure=measure, tol=tol, detail=detail, n=n)
+
+    def close(self, clause, measure, tol, sub=None, detail=None):
+        return self._o.close(clause, measure, tol, sub=sub, detail=detail)
+
+    def stat(self, key, n=1):
+        return self._o.stat(key, n)
+
+    def note(self, key, value):
+        return self._o.note(key, value)
 
 
 class _Worst(object):
@@ -218,7 +300,7 @@ class _Worst(object):
                 w[2] = detail
 
     def flush(self):
-        for (clause, sub), (err, tol, detail, n) in sorted(self.d.items()):
+        for (clause, sub), (err, tol, detail, n) in sorted(self.d.items(), key=lambda kv: (kv[0][0], str(kv[0][1]))):
             ok = err <= tol
             self.o.check(clause, ok, sub=None if ok else sub, measure=err, tol=tol,
                          detail=None if ok else detail, n=n)
@@ -226,17 +308,45 @@ class _Worst(object):
 
 # ----------------------------------------------------------------------------- single bright pixel
 
+def _same_paths(o, C, shape):
+    """the centroiders reached through the package-level names return the same values as those of the centroiders
+    module (a wrapper / lazy re-export is as good as the same object)"""
+    import aotools
+    ny, nx = shape
+    i, j = numpy.indices(shape)
+    probes = [((3 * i + 5 * j + i * j) % 7 + 1.0), ((i + 2 * j) % 3 == 0) * 2.0 + (i == ny - 1) * (j == nx - 1) * 5.0]
+    probes.append(numpy.array(probes))
+    ways = []
+    try:
+        ways.append(("aotools.centre_of_gravity", aotools.centre_of_gravity, C.centre_of_gravity, (0.3,)))
+        ways.append(("aotools.image_processing.centre_of_gravity", aotools.image_processing.centre_of_gravity,
+                     C.centre_of_gravity, (0.3,)))
+        if ny * nx >= 2:
+            ways.append(("aotools.image_processing.brightest_pixel", aotools.image_processing.brightest_pixel,
+                         C.brightest_pixel, (_frac_for(2, ny * nx),)))
+    except AttributeError:
+        o.stat("same_function_all_paths_not_claimed", 1)       # which names the package re-exports is not C15's business
+    worst = 0.0
+    for name, f, g, args in ways:
+        for pr in probes:
+            a, b = _xy(f(pr.copy(), *args)), _xy(g(pr.copy(), *args))
+            o.stat("lib_calls", 2)
+            both = numpy.isnan(a) & numpy.isnan(b) if a.shape == b.shape else False
+            e = _err(numpy.where(both, 0.0, a), numpy.where(both, 0.0, b)) if a.shape == b.shape else float("inf")
+            worst = max(worst, e)
+    o.check("same_function_all_paths", worst <= TOL, measure=worst, tol=TOL)
+
+
 def _loc(shape):
     C = _lib()
-    import aotools
     o = Out()
-    o.check("same_function_all_paths", aotools.centre_of_gravity is C.centre_of_gravity
-            and aotools.image_processing.brightest_pixel is C.brightest_pixel)
+    _same_paths(o, C, shape)
     w = _Worst(o)
     ny, nx = shape
     n = ny * nx
-    npxs = sorted(set([2, max(2, n // 2), n]))
-    for v in (1.0, 3.0, 0.7):
+    npxs = sorted(set([2, max(2, n // 2), n])) if n >= 2 else []      # one pixel: no fraction selects two
+    # 1e-7 and 1e7: an absolute intensity floor or ceiling in the implementation shows on faint / bright pixels only
+    for v in (1.0, 3.0, 0.7, 1e-7, 1e7):
         frames, want = [], []
         for y in range(ny):
             for x in range(nx):
@@ -282,13 +392,15 @@ def _img(p):
     offs = [(dy, dx) for dy in range(3) for dx in range(3)]
     offxy = numpy.array([(dx, dy) for dy, dx in offs], dtype=float).T
     nontrivial = 0
+    scales = SCALES + (SCALES_WIDE if shape == (2, 2) else [])
+    ns = len(scales)
     for code, img in cog.all_images(shape, alpha, p["lo"], p["hi"]):
         if not img.any():
             continue
         if len(set(img[img > 0].tolist())) >= 2:
             nontrivial += 1
         ref = cog.cog_float(img)
-        scaled = [img * s for s in SCALES]
+        scaled = [img * s for s in scales]
         frames = [cog.embed(img, fshape, dy, dx) for dy, dx in offs]
         sstack = numpy.array([img] + scaled)
         fstack = numpy.array(frames)
@@ -298,7 +410,7 @@ def _img(p):
             base = _xy(C.centre_of_gravity(img.copy(), threshold=t))
             if t == 0:
                 w.add("cog_matches_exact", "cog2d", _err(base, ref), TOL, det)
-            for s, si in zip(SCALES, scaled):
+            for s, si in zip(scales, scaled):
                 got = _xy(C.centre_of_gravity(si.copy(), threshold=t))
                 w.add("scale_invariance", "cog2d:" + tag, _err(got, base), TOL, dict(det, scale=s, got=got, base=base))
             f0 = None
@@ -313,31 +425,43 @@ def _img(p):
             # N-D path: the same relations inside one stacked call
             gs = _xy(C.centre_of_gravity(sstack.copy(), threshold=t))
             gf = _xy(C.centre_of_gravity(fstack.copy(), threshold=t))
-            if gs.shape != (2, 4) or gf.shape != (2, 9):
+            if gs.shape != (2, 1 + ns) or gf.shape != (2, 9):
                 w.add("stack_output_shape", "cogNd", float("inf"), 0, {"shape": gs.shape})
                 continue
             if t == 0:
                 w.add("cog_matches_exact", "cogNd", _err(gs[:, 0], ref), TOL, det)
-            w.add("scale_invariance", "cogNd:" + tag, _err(gs[:, 1:], gs[:, :1] * numpy.ones((1, 3))), TOL,
+            w.add("scale_invariance", "cogNd:" + tag, _err(gs[:, 1:], gs[:, :1] * numpy.ones((1, ns))), TOL,
                   dict(det, got=gs))
             w.add("shift_equivariance", "cogNd:" + tag, _err(gf - gf[:, :1], offxy), TOL, dict(det, got=gf))
-            o.stat("lib_calls", 1 + 3 + 9 + 2)
+            o.stat("lib_calls", 1 + ns + 9 + 2)
         # brightest pixel: rank thresholds selecting >= 2 pixels (same frame size => same rank)
         for npx in sorted(set([2, n])):
             f = _frac_for(npx, n)
             det = {"image": img, "npx": npx}
             base = _xy(C.brightest_pixel(img.copy(), f))
             if numpy.all(numpy.isfinite(base)):      # ties at the rank value leave no flux: undefined
-                for s, si in zip(SCALES, scaled):
+                for s, si in zip(scales, scaled):
                     got = _xy(C.brightest_pixel(si.copy(), f))
                     w.add("scale_invariance", "bp2d:npx=%d" % npx, _err(got, base), TOL, dict(det, scale=s, got=got))
                 gs = _xy(C.brightest_pixel(sstack.copy(), f))
-                w.add("scale_invariance", "bpNd:npx=%d" % npx, _err(gs[:, 1:], gs[:, :1] * numpy.ones((1, 3))), TOL,
+                w.add("scale_invariance", "bpNd:npx=%d" % npx, _err(gs[:, 1:], gs[:, :1] * numpy.ones((1, ns))), TOL,
                       dict(det, got=gs))
-                o.stat("lib_calls", 5)
+                o.stat("lib_calls", 2 + ns)
             else:
-                o.check("undefined_when_no_flux_left", cog.cog_exact(cog.rank_subtract(img, npx)) is None,
-                        sub=None, detail=det)
+                # Which images are left without flux depends on the tie / rank convention, which the statement does
+                # not fix: the only demand is that "undefined" is itself unchanged by a positive factor (equal pixel
+                # values stay equal after scaling, so an image without flux left has none at any scale) ...
+                for s, si in zip(scales, scaled):
+                    got = _xy(C.brightest_pixel(si.copy(), f))
+                    w.add("scale_invariance", "bp2d:npx=%d:undefined" % npx, 0.0 if _undefined(got) else float("inf"),
+                          0.0, dict(det, scale=s, got=got, unscaled=base))
+                gs = _xy(C.brightest_pixel(sstack.copy(), f))
+                w.add("scale_invariance", "bpNd:npx=%d:undefined" % npx, 0.0 if _undefined(gs[:, 1:]) else float("inf"),
+                      0.0, dict(det, got=gs))
+                o.stat("lib_calls", 1 + ns)
+                # ... the rank model of mc/refmodels/cog.py (subtract the npx-th brightest value) only classifies
+                if cog.cog_exact(cog.rank_subtract(img, npx)) is not None:
+                    o.stat("bp_undefined_unlike_rank_subtract_model", 1)
         for npx in (2, 3):
             f = _frac_for(npx, fn)
             det = {"image": img, "npx": npx, "frame": fshape}
@@ -388,6 +512,22 @@ def _rect(shape):
     return out
 
 
+def _thin(shape):
+    """single rows (1 x 5) / single columns (4 x 1): the anti-diagonal of the A12 images laid out along the long
+    axis, followed by a fainter pixel"""
+    out = []
+    for a in _a12():
+        line = numpy.zeros(max(shape))
+        line[:3] = [a[2, 0], a[1, 1], a[0, 2]]
+        line[-1] = a[0, 0] + 0.5
+        out.append(line.reshape(shape).copy())
+    return out
+
+
+_ALPHABETS = {"A12": _a12, "R25": lambda: _rect((2, 5)), "R43": lambda: _rect((4, 3)), "R15": lambda: _thin((1, 5)),
+              "R41": lambda: _thin((4, 1)), "B80": lambda: _b80()}
+
+
 def _b80():
     return [img for _, img in cog.all_images((2, 2), (0, 1, 3)) if img.any()]
 
@@ -411,13 +551,17 @@ def _stack(p):
     C = _lib()
     o = Out()
     fn, par, depth = p["fn"], p["par"], p["depth"]
-    alpha = _a12() if p["alpha"] == "A12" else (_rect((2, 5)) if p["alpha"] == "R25" else
-                                                 _rect((4, 3)) if p["alpha"] == "R43" else _b80())
+    alpha = _ALPHABETS[p["alpha"]]()
     if p.get("dtype"):
         alpha = [numpy.round(a * 4).astype(p["dtype"]) for a in alpha]
     npix = alpha[0].size
+    minthr = p.get("minthr")
+    # single-precision data: sums may legitimately be accumulated in single precision (8 eps32 x coordinate range)
+    tol_here = 8 * EPS32 * max(alpha[0].shape) if p.get("dtype") == "float32" else TOL
 
     def call(a):
+        if fn == "cog" and minthr is not None:
+            return _xy(C.centre_of_gravity(a.copy(), threshold=par, min_threshold=minthr))
         if fn == "cog":
             return _xy(C.centre_of_gravity(a.copy(), threshold=par))
         if p.get("frac"):
@@ -429,6 +573,7 @@ def _stack(p):
     o.stat("lib_calls", len(alpha))
     classes = {}
     worst = 0.0
+    worst_raw = 0.0
     nchk = 0
     for idx in itertools.product(range(len(alpha)), repeat=depth):
         st = numpy.array([alpha[i] for i in idx])
@@ -443,12 +588,12 @@ def _stack(p):
             if not (numpy.all(numpy.isfinite(a)) or numpy.all(numpy.isfinite(b))):
                 continue             # no flux left in this frame for both paths: undefined
             e = _err(a, b)
-            tol_here = 1e-6 if p.get("dtype") == "float32" else TOL      # single-precision data: its own rounding
+            worst_raw = max(worst_raw, e)
             if e <= tol_here:
-                e = min(e, TOL)
+                e = min(e, TOL)          # (the clause line carries TOL; the float32 residual is shown separately below)
             worst = max(worst, e)
             if not e <= tol_here:
-                cl = _classify(alpha[i], par, a, b) if fn == "cog" and par != 0 else "other"
+                cl = _classify(alpha[i], par, a, b) if fn == "cog" and par != 0 and minthr is None else "other"
                 classes.setdefault(cl, {"stack_of_images": [alpha[j] for j in idx], "frame": k,
                                         "stack_answer_xy": a, "frame_alone_xy": b})
         o.outcome(got.round(9))
@@ -456,6 +601,41 @@ def _stack(p):
         o.check("stack_equals_frames", True, measure=worst, tol=TOL, n=nchk)
     for cl, det in sorted(classes.items()):
         o.check("stack_equals_frames", False, sub=cl, measure=worst, tol=TOL, detail=det, n=nchk)
+    if tol_here != TOL:
+        # display only (always passes; a residual above the tolerance is reported under stack_equals_frames)
+        o.check("stack_equals_frames_float32_residual", True, measure=min(worst_raw, tol_here), tol=tol_here, n=0)
+    return o
+
+
+def _minthr(p):
+    """centre of gravity with a threshold AND an absolute threshold floor (min_threshold): content shifted by k moves
+    the centroid by k, through the 2-D and the N-D path (min_threshold is absolute: no scale clause)"""
+    C = _lib()
+    o = Out()
+    w = _Worst(o)
+    offs = [(dy, dx) for dy in range(3) for dx in range(3)]
+    offxy = numpy.array([(dx, dy) for dy, dx in offs], dtype=float).T
+    for img in _a12() + _rect((2, 5)):
+        fshape = (img.shape[0] + 2, img.shape[1] + 2)
+        frames = [cog.embed(img, fshape, dy, dx) for dy, dx in offs]
+        fstack = numpy.array(frames)
+        for t in (0.1, 0.3):
+            for m in MIN_THR:
+                tag = "thr=%g:minthr=%g" % (t, m)
+                det = {"image": img, "threshold": t, "min_threshold": m}
+                got = [_xy(C.centre_of_gravity(fr.copy(), threshold=t, min_threshold=m)).reshape(-1) for fr in frames]
+                gf = _xy(C.centre_of_gravity(fstack.copy(), threshold=t, min_threshold=m))
+                o.stat("lib_calls", 10)
+                if gf.shape != (2, 9):
+                    w.add("stack_output_shape", "cogNd", float("inf"), 0, {"shape": gf.shape})
+                    continue
+                if _undefined(got[0]) and _undefined(gf):
+                    continue            # nothing above the floor: undefined for both paths
+                w.add("shift_equivariance", "cog2d:" + tag, _err(numpy.array(got).T - got[0][:, None], offxy), TOL,
+                      dict(det, got=numpy.array(got).T))
+                w.add("shift_equivariance", "cogNd:" + tag, _err(gf - gf[:, :1], offxy), TOL, dict(det, got=gf))
+                w.add("stack_equals_frames", tag, _err(gf, numpy.array(got).T), TOL, dict(det, stack=gf, frames=numpy.array(got).T))
+    w.flush()
     return o
 
 
@@ -500,10 +680,41 @@ def _corrstack(p):
                 n += 1
     o.close("stack_equals_frames", worst, TOL_FFT)
     o.clauses["stack_equals_frames"][0] = n
+    # the merged evidence line of stack_equals_frames shows one tolerance for all cases: the one applied HERE
+    o.note("corr_stack_equals_frames_worst_and_tol", [worst, TOL_FFT])
     return o
 
 
 # ----------------------------------------------------------------------------- correlation centroid
+
+def _centre_reading(val, n):
+    """which admissible reading of 'array centre' an even axis of n pixels shows (None: odd n, or neither)"""
+    if n % 2:
+        return None
+    hit = [nm for nm, c in (("n/2", n / 2.0), ("(n-1)/2", (n - 1) / 2.0)) if abs(val - c) <= TOL_FFT]
+    return hit[0] if len(hit) == 1 else None
+
+
+def _note_readings(o, readings):
+    o.note("even_centre_readings", dict((str(n), sorted(v)) for n, v in sorted(readings.items()) if v))
+
+
+def finalize(tier, results):
+    """'the array centre ... for any padding' is ONE centre: for an even axis length n, the reading (n/2 or
+    (n-1)/2) is the same at every padding, threshold, pattern and on both axes"""
+    o = Out()
+    seen = {}
+    for cid in sorted(results):
+        notes = getattr(results[cid], "notes", None) or {}
+        for n, names in sorted((notes.get("even_centre_readings") or {}).items()):
+            for nm in names:
+                seen.setdefault(int(n), {}).setdefault(nm, cid)
+    for n in sorted(seen):
+        o.check("corr_array_centre_one_reading", len(seen[n]) <= 1, sub="n=%d" % n,
+                detail=None if len(seen[n]) <= 1 else {"reading -> first case showing it": seen[n]})
+    o.note("even_centre_reading_per_n", dict((str(n), sorted(v)) for n, v in seen.items()))
+    return o
+
 
 def _corrsize(p):
     """array centre and displacement clauses on frames whose sizes have large prime factors"""
@@ -514,15 +725,20 @@ def _corrsize(p):
     spot = numpy.array([[1., 2., 1.], [2., 6., 3.], [1., 3., 2.]])
     y0, x0 = (ny - 3) // 2, (nx - 3) // 2
     ref = cog.embed(spot, (ny, nx), y0, x0)
+    readings = {}
     for t in (0.0, 0.3):
         c0 = _xy(C.correlation_centroid(ref.copy(), ref.copy(), threshold=t, padding=pad)).reshape(-1)
         o.close("corr_array_centre", min(abs(c0[0] - float(c)) for c in cx), TOL_FFT, sub="axis=x:thr=%g" % t, detail={"got": c0[0]})
         o.close("corr_array_centre", min(abs(c0[1] - float(c)) for c in cy), TOL_FFT, sub="axis=y:thr=%g" % t, detail={"got": c0[1]})
+        for val, n in ((c0[0], nx), (c0[1], ny)):
+            readings.setdefault(n, set()).add(_centre_reading(val, n))
+            readings[n].discard(None)
         for sy, sx in ((0, 1), (1, 0), (-2, 3), (3, -1), (-4, -4), (y0 - ny + 3 + 1 if False else 2, 2)):
             im = cog.embed(spot, (ny, nx), y0 + sy, x0 + sx)
             c = _xy(C.correlation_centroid(im.copy(), ref.copy(), threshold=t, padding=pad)).reshape(-1)
             o.close("corr_displacement", _err(c - c0, (sx, sy)), TOL_FFT, sub="thr=%g:shift=(%d,%d)" % (t, sx, sy))
         o.stat("lib_calls", 7)
+    _note_readings(o, readings)
     return o
 
 
@@ -534,37 +750,76 @@ def _corr(p):
     cy, cx = cog.array_centres(ny), cog.array_centres(nx)
     My, Mx = ny * pad, nx * pad
     ndisp = 0
+    readings = {}
+
+    def cc(im, ref, t):
+        o.stat("lib_calls", 1)
+        return _xy(C.correlation_centroid(im.copy(), ref.copy(), threshold=t, padding=pad)).reshape(-1)
+
     for pm in _patterns():
         h, wd = pm.shape
+        if h > ny or wd > nx:
+            continue                      # single-row / single-column frames: the pattern does not fit
         y0, x0 = (ny - h) // 2, (nx - wd) // 2
         ref = cog.embed(pm, (ny, nx), y0, x0)
         disp = [(sy, sx) for sy in range(-y0, ny - h - y0 + 1) for sx in range(-x0, nx - wd - x0 + 1)
                 if abs(sy) + (h - 1) <= (My - 1) // 2 and abs(sx) + (wd - 1) <= (Mx - 1) // 2]
         if (0, 0) not in disp:
             continue
+        has_floor_pixel = bool(ref.min() == 0)      # a uniform floor is then the minimum of the frame
         for t in (0.0, 0.3, 0.9):
             det = {"pattern": pm, "frame": (ny, nx), "padding": pad, "threshold": t}
-            c0 = _xy(C.correlation_centroid(ref.copy(), ref.copy(), threshold=t, padding=pad)).reshape(-1)
-            o.stat("lib_calls", 1)
+            c0 = cc(ref, ref, t)
             ex = min(abs(c0[0] - float(c)) for c in cx)
             ey = min(abs(c0[1] - float(c)) for c in cy)
             w.add("corr_array_centre", "axis=x", ex, TOL_FFT,
                   dict(det, got_x=c0[0], array_centre_x=[float(c) for c in cx]))
             w.add("corr_array_centre", "axis=y", ey, TOL_FFT,
                   dict(det, got_y=c0[1], array_centre_y=[float(c) for c in cy]))
-            for sy, sx in disp:
+            for val, n in ((c0[0], nx), (c0[1], ny)):
+                r = _centre_reading(val, n)
+                if r is not None:
+                    readings.setdefault(n, set()).add(r)
+            # the same content on uniform floors under the image and / or the reference (sky, bias level): the
+            # displacement is still counted from the same array centre
+            floors = FLOORS if (has_floor_pixel and t != 0.9) else []
+            c0f = {}
+            for bi, br in floors:
+                c0f[(bi, br)] = cc(ref + bi, ref + br, t)
+                w.add("corr_array_centre", "floors=(%g,%g)" % (bi, br), _err(c0f[(bi, br)], c0), TOL_FFT,
+                      dict(det, floor_image=bi, floor_reference=br, got=c0f[(bi, br)], without_floor=c0))
+            for k, (sy, sx) in enumerate(disp):
                 im = cog.embed(pm, (ny, nx), y0 + sy, x0 + sx)
-                c = _xy(C.correlation_centroid(im.copy(), ref.copy(), threshold=t, padding=pad)).reshape(-1)
-                o.stat("lib_calls", 1)
+                c = cc(im, ref, t)
                 ndisp += 1
                 w.add("corr_displacement", None, _err(c - c0, (sx, sy)), TOL_FFT,
                       dict(det, displacement_xy=(sx, sy), got=c, zero_displacement=c0))
+                if floors:
+                    bi, br = floors[k % len(floors)]
+                    cf = cc(im + bi, ref + br, t)
+                    w.add("corr_displacement", "floors=(%g,%g)" % (bi, br), _err(cf - c0f[(bi, br)], (sx, sy)), TOL_FFT,
+                          dict(det, displacement_xy=(sx, sy), floor_image=bi, floor_reference=br, got=cf,
+                               zero_displacement=c0f[(bi, br)]))
                 if t == 0.3:
-                    c3 = _xy(C.correlation_centroid(im.copy() * 3.0, ref.copy(), threshold=t, padding=pad)).reshape(-1)
-                    o.stat("lib_calls", 1)
-                    w.add("scale_invariance", "corr", _err(c3, c), TOL_FFT, dict(det, got=c3, unscaled=c))
+                    for sc in CORR_SCALES:
+                        c3 = cc(im * sc, ref, t)
+                        w.add("scale_invariance", "corr", _err(c3, c), TOL_FFT, dict(det, scale=sc, got=c3, unscaled=c))
+                if t == 0.0:
+                    # a displacement between two lattice points, realised by linear interpolation along one axis:
+                    # the correlation is linear in the image, its centre of gravity (threshold 0) is the flux-weighted
+                    # mean of the two displacements (a peak finder, or a rounded centroid, stays on the lattice)
+                    step = ((0, 1), (1, 0))[k % 2]
+                    a = (0.25, 0.5, 0.7)[k % 3]
+                    s1 = (sy + step[0], sx + step[1])
+                    if s1 in disp:
+                        im1 = cog.embed(pm, (ny, nx), y0 + s1[0], x0 + s1[1])
+                        cm = cc((1 - a) * im + a * im1, ref, t)
+                        want = (sx + a * step[1], sy + a * step[0])
+                        w.add("corr_displacement_subpixel", None, _err(cm - c0, want), TOL_FFT,
+                              dict(det, mix=a, displacements_yx=[(sy, sx), s1], got=cm, zero_displacement=c0))
     w.flush()
     o.note("corr_displacements", ndisp)
+    _note_readings(o, readings)
     return o
 
 
@@ -575,7 +830,8 @@ def _quad():
     o = Out()
     w = _Worst(o)
     alpha = (0, 1, 2, 3, 5)
-    imgs = [im for _, im in cog.all_images((2, 2), alpha)]
+    # a cell without light has no signal to speak of (a flux-normalised quad cell gives 0/0 there): left out
+    imgs = [im for _, im in cog.all_images((2, 2), alpha) if im.any()]
     for im in imgs:
         q = _xy(C.quadCell(im.copy()))
         qx = _xy(C.quadCell(im[:, ::-1].copy()))
@@ -593,8 +849,32 @@ def _quad():
     for i, j in itertools.product(range(len(sub)), repeat=2):
         got = _xy(C.quadCell(numpy.array([sub[i], sub[j]])))
         o.stat("lib_calls", 1)
-        e = float("inf") if got.shape != (2, 2) else max(_err(got[:, 0], single[i]), _err(got[:, 1], single[j]))
+        e = float("inf") if got.shape != (2, 2) else max([0.0] + [_err(got[:, k], single[m]) for k, m in ((0, i), (1, j))
+                                                                     if sub[m].any()])
         w.add("stack_equals_frames", None, e, 0.0, {"stack": [sub[i], sub[j]], "got": got})
+    # grids of cells (two and three leading axes), float and raw unsigned counts: stack == cells, and the mirror
+    # clause inside the stacked call
+    lit = [im for im in sub if im.any()]
+    for lead in ((3, 3), (2, 2, 3)):
+        nfr = int(numpy.prod(lead))
+        for dt in ("float64", "uint8", "int32"):
+            st = numpy.array([lit[(7 * k + 3) % len(lit)] for k in range(nfr)]).astype(dt).reshape(lead + (2, 2))
+            tag = "lead=%s:%s" % (lead, dt)
+            try:
+                got = _xy(C.quadCell(st.copy()))
+                gx = _xy(C.quadCell(st[..., ::-1].copy()))
+                gy = _xy(C.quadCell(st[..., ::-1, :].copy()))
+            except Exception as e:
+                o.check("stack_equals_frames", False, sub="quad:" + tag, detail="%s: %s" % (type(e).__name__, str(e)[:200]))
+                continue
+            o.stat("lib_calls", 3 + nfr)
+            if got.shape != (2,) + lead or gx.shape != got.shape or gy.shape != got.shape:
+                o.check("stack_equals_frames", False, sub="quad:" + tag, detail="shape %s" % (got.shape,))
+                continue
+            cells = numpy.array([_xy(C.quadCell(st[idx].copy())).reshape(2) for idx in numpy.ndindex(*lead)]).T.reshape((2,) + lead)
+            w.add("stack_equals_frames", "quad:" + tag, _err(got, cells), 0.0, {"stack": st, "got": got, "cells": cells})
+            w.add("quadcell_mirror_antisymmetry", "mirror_x:" + tag, _err(gx[0], -got[0]), 0.0, {"stack": st, "signal": got, "mirrored": gx})
+            w.add("quadcell_mirror_antisymmetry", "mirror_y:" + tag, _err(gy[1], -got[1]), 0.0, {"stack": st, "signal": got, "mirrored": gy})
     # observation (not a clause): the signal is homogeneous of degree 1, i.e. NOT scale invariant
     q1 = _xy(C.quadCell(numpy.array([[0., 1.], [0., 3.]])))
     q2 = _xy(C.quadCell(2 * numpy.array([[0., 1.], [0., 3.]])))
@@ -610,6 +890,7 @@ def _storage(p):
     from mc import variants
     C = _lib()
     o = Out()
+    fo = _Filtered(o)        # a call that raises on a read-only array: not C15's business
     i, j = numpy.indices((5, 6))
     img = ((3 * i * i + 5 * j + 2 * i * j) % 13 + (i == 2) * (j == 3) * 20).astype(float)
     st = numpy.array([img, numpy.roll(img, 1, 0), numpy.roll(img, 2, 1) * 2])
@@ -624,10 +905,10 @@ def _storage(p):
     }
     for name, f in fns.items():
         for dname, data in (("2d", img), ("3d", st)):
-            n = variants.check_storage(o, "centroid_independent_of_storage", f, data, 1e-12, sub="%s:%s" % (name, dname))
+            n = variants.check_storage(fo, "centroid_independent_of_storage", f, data, 1e-12, sub="%s:%s" % (name, dname))
             o.stat("lib_calls", n)
     # the reference image of the correlation centroider, too
-    n = variants.check_storage(o, "centroid_independent_of_storage",
+    n = variants.check_storage(fo, "centroid_independent_of_storage",
                                lambda r: C.correlation_centroid(st.copy(), r), ref, 1e-12, sub="corr:reference")
     o.stat("lib_calls", n)
     return o
@@ -677,7 +958,9 @@ def _large(p):
             for nm_, f in (("cog", lambda a: C.centre_of_gravity(a)), ("cogNd", lambda a: C.centre_of_gravity(a[None])),
                            ("bp", lambda a: C.brightest_pixel(a, 0.5)), ("bpNd", lambda a: C.brightest_pixel(a[None], 0.5))):
                 got = _xy(f(img.copy())).reshape(2)
-                o.close("single_pixel_location_large", _err(got, want), 1e-6 if dt == "float32" else 1e-9,
+                # float32 image: first moments may be accumulated in single precision (eps32 x coordinate, up to
+                # 3e-5 at x = 254; the unchanged library promotes to double and measures 0): 8 eps32 x frame size
+                o.close("single_pixel_location_large", _err(got, want), 8 * EPS32 * max(shape) if dt == "float32" else 1e-9,
                         sub="%s:%dx%d:%s:bright" % ((nm_,) + shape + (dt,)))
                 o.stat("lib_calls", 1)
         dense = numpy.fromfunction(lambda a, b: ((a * 7 + b * 3) % 11 + 1.0) * ((a - 30) ** 2 + (b - 30) ** 2 < 100), shape)
@@ -685,6 +968,19 @@ def _large(p):
         c1 = _xy(C.centre_of_gravity(numpy.roll(numpy.roll(dense, 9, 0), 17, 1))).reshape(2)
         o.close("shift_equivariance_large", _err(c1 - c0, numpy.array([17.0, 9.0])), 1e-9, sub="%dx%d" % shape)
         o.stat("lib_calls", 2)
+        # the same spot through the threshold / rank selection (rank well inside the spot: 314 lit pixels, values
+        # 1..11), single frame and stack of one
+        moved = numpy.roll(numpy.roll(dense, 9, 0), 17, 1)
+        npix = shape[0] * shape[1]
+        for nm_, f in (("cog_thr0.3", lambda a: C.centre_of_gravity(a, threshold=0.3)),
+                       ("bp:npx=150", lambda a: C.brightest_pixel(a, _frac_for(150, npix))),
+                       ("bp:npx=40", lambda a: C.brightest_pixel(a, _frac_for(40, npix)))):
+            for path, lift in (("2d", lambda a: a.copy()), ("Nd", lambda a: a.copy()[None])):
+                c0 = _xy(f(lift(dense))).reshape(2)
+                c1 = _xy(f(lift(moved))).reshape(2)
+                o.close("shift_equivariance_large", _err(c1 - c0, numpy.array([17.0, 9.0])), 1e-9,
+                        sub="%s:%s:%dx%d" % ((nm_, path) + shape))
+                o.stat("lib_calls", 2)
     # stacks with two and three leading axes (a grid of sub-apertures per exposure), every frame different
     for lead in ((3, 3), (2, 3), (4, 4), (2, 2, 3)):
         nfr = int(numpy.prod(lead))
@@ -711,6 +1007,7 @@ def _large(p):
             o.close("stack_equals_frames_grid", _err(full, singles), 1e-9, sub="%s:lead=%s" % (name, lead))
     # call histories on caller-owned arrays: the image and the reference handed over again after an in-place edit
     from mc import variants
+    o_all, o = o, _Filtered(o)       # "<..>_argument_unchanged" of check_reuse is C20's statement: counted, not demanded
     im = numpy.roll(base, 2, 0) * 1.5 + 1.0
     roll_ = lambda a: a.__setitem__(Ellipsis, numpy.roll(numpy.roll(a, 2, -2), 1, -1) * 1.25)
     k = 0
@@ -726,4 +1023,4 @@ def _large(p):
         k += variants.check_reuse(o, "image", f, im, 1e-12, sub=name, mutate=roll_)
         k += variants.check_reuse(o, "image", f, numpy.array([im, base, im * 2]), 1e-12, sub=name + ":stack", mutate=roll_)
     o.stat("lib_calls", k)
-    return o
+    return o_all
